@@ -68,6 +68,9 @@ func (c *compiler) compile() (string, error) {
 			if c.curStmt != nil {
 				s = c.curStmt
 			}
+			if bs := blockFailureOf(err, c.program); bs != nil {
+				s = bs
+			}
 			return "", fmt.Errorf("line %d: %w", s.T().LineNumber, err)
 		}
 
